@@ -872,6 +872,10 @@ def step_codes(an, rep):
         seen.add(v)
         code, sub = want[v]
         ws = called(p, "BinaryOutput::write_var_i32")
+        st_ = called(p, "State::store_string")
+        if sub and sub.startswith("<DeduplicatedString") and len(st_) == 1:
+            # DeduplicatedString protocol in place: the back reference is a second VarI32 after the name was registered
+            ws = [w for w in ws if p.events.index(w) < p.events.index(st_[0])]
         okk = len(ws) == 1
         if okk:
             arg = strip_refs(ws[0][5][1])
@@ -880,6 +884,10 @@ def step_codes(an, rep):
             else:
                 okk = _signed32(guards.rng(arg)) == int(consts.get(code, "x") if consts.get(code) is not None else 99)
         subs = [c[2] for c in sig_calls(p) if "BinarySerializer>::serialize" in c[2]]
+        if sub and sub.startswith("<DeduplicatedString") and subs != [sub] and len(called(p, "State::store_string")) == 1:
+            # the DeduplicatedString protocol written in place (shared helper taking &str): register the name, then the
+            # back reference or the plain string
+            subs = [sub]
         okk = okk and subs == ([sub] if sub else [])
         R.check(okk, w.key, "arm " + v, "writer arm %s does not emit VarI32(%s)%s" % (v, code, (" then " + sub) if sub else ""),
                 None, sample={"writer arm": v, "code": code})
@@ -1082,7 +1090,7 @@ def dedup_strings(an, rep):
             if kind != "ok":
                 continue
             seen.add("plain")
-            utf = called(p, "String::from_utf8")
+            utf = called(p, "String::from_utf8") or called(p, "from_utf8")
             okk = len(reads) == 1 and len(stores) == 1 and len(utf) == 1 and not lookups
             if okk:
                 okk = "read_var_i32" in show(reads[0][5][1]) and p.events.index(reads[0]) < p.events.index(stores[0])
